@@ -81,8 +81,18 @@ def cases(ctx):
             yield c
         else:
             N = rng.randint(1, 12)
-            yield {"kind": "soft", "dtype": rng.choice(["float64", "float32"]), "vals": [rng.randint(-40, 40) for _ in range(N)],
-                   "t4": rng.choice([0, 1, 4, 10, 17]), "layout": rng.choice(["C", "strided", "negstride"])}
+            if rng.random() < 0.5:
+                yield {"kind": "soft", "dtype": rng.choice(["float64", "float32"]), "vals": [rng.randint(-40, 40) for _ in range(N)],
+                       "t4": rng.choice([0, 1, 4, 10, 17]), "layout": rng.choice(["C", "strided", "negstride"])}
+            else:
+                # integer images (the property's quantifier is about unsigned images): whole values and a whole threshold, the
+                # dtype's extremes among them
+                dt = rng.choice(["uint8", "uint16", "uint32", "uint64", "int8", "int16", "int32", "int64"])
+                lo, hi = gen.INT_INFO[dt]
+                pool = [lo, lo + 1, hi, hi - 1, 0, 1, 16, 17] + [rng.randint(max(lo, -40), min(hi, 200)) for _ in range(6)]
+                yield {"kind": "soft", "dtype": dt, "vals": [4 * rng.choice(pool) for _ in range(N)],
+                       "t4": 4 * rng.choice([0, 1, 16, 17, 100]), "layout": rng.choice(["C", "strided", "negstride"]),
+                       "tkind": rng.choice(["int", "int", "npint"])}
 
 
 def shape_for(n, nd, rng_seed):
@@ -241,19 +251,34 @@ def run_case(ctx, case):
         return Result(True, len(set(case["vals"])) > 1, None, "%s/%s" % (kind, "hi" if ct <= 15 else "lo"))
     if kind == "soft":
         from mahotas import thresholding as th
-        a0 = (np.array(case["vals"], dtype=np.int64) * 0.25).astype(case["dtype"])
+        if case["dtype"].startswith("float"):
+            a0 = (np.array(case["vals"], dtype=np.int64) * 0.25).astype(case["dtype"])
+            t = case["t4"] * 0.25
+        else:
+            a0 = np.array([v // 4 for v in case["vals"]], dtype=case["dtype"])
+            t = case["t4"] // 4
+            if case.get("tkind") == "npint":
+                t = np.int64(t)
         a = apply_layout(a0, case["layout"], fill=1)
         keep = a.copy()
-        t = case["t4"] * 0.25
         got = th.soft_threshold(a, t)
         if not np.array_equal(a, keep):
             return Result(False, True, {"why": "input modified"})
+        if got.dtype != a0.dtype or got.shape != a0.shape:
+            return Result(False, True, {"why": "soft_threshold: dtype/shape of the result", "got": str(got.dtype), "want": str(a0.dtype)})
         for i, v4 in enumerate(case["vals"]):
             num, den = ctx.model.ints("soft_px %d 4 %d 4" % (v4, case["t4"]))[0]
             want = num / den
             t4 = case["t4"]
             rule = 0.0 if abs(v4) <= t4 else ((v4 - t4) / 4 if v4 > 0 else (v4 + t4) / 4)
             g = float(got.reshape(-1)[i])
+            if not case["dtype"].startswith("float"):
+                # exact integers (a 64-bit value does not survive float())
+                gi = int(got.reshape(-1)[i])
+                if 4 * gi * den != 4 * num or 4 * gi != (0 if abs(v4) <= t4 else (v4 - t4 if v4 > 0 else v4 + t4)):
+                    return Result(False, True, {"why": "soft_threshold[%d] != shrink by tval" % i, "x": v4 // 4, "t": int(t), "got": gi,
+                                                "dtype": case["dtype"]})
+                continue
             if g != want or g != rule:
                 return Result(False, True, {"why": "soft_threshold[%d] != shrink by tval" % i, "x": v4 / 4, "t": t, "got": g, "rule": rule, "model": want})
         return Result(True, True, None, "soft")
